@@ -260,7 +260,24 @@ def judge(rec, cls, params, audit, outcome, fired):
 	return False
 
 
+class Alias(torch.nn.Module):
+	"""A wrapper under which the body (and so every activation / pooling
+	module) is reachable through two parents, as in models that keep a handle
+	on their trunk: Module.apply() visits such modules twice."""
+
+	def __init__(self, seed):
+		super().__init__()
+		self.net = Net("dls", seed)
+		self.trunk = self.net.body
+		self.first_act = self.net.body[1]
+
+	def forward(self, X, a=None):
+		return self.net(X, a)
+
+
 def fresh(kind, seed=0):
+	if kind == "alias":
+		return Alias(seed).eval()
 	return Net(kind, seed).eval()
 
 
@@ -463,9 +480,10 @@ EVENT_OPS = ["dls", "dls_dinuc_args_raw", "dls_tensor_refs", "marginalize_dls",
 	"ablate_dls", "space_dls", "substitution_dls", "deletion_dls",
 	"product_dls", "predict", "predict_args", "ism", "marginalize", "ablate",
 	"space", "substitution", "insertion", "pairwise", "greedy"]
-LINE_OPS_QUICK = [("dls", "dls")]
+LINE_OPS_QUICK = [("dls", "dls"), ("dls_dinuc_args_raw", "alias")]
 LINE_OPS_THOROUGH = [("dls", "dls"), ("dls_dinuc_args_raw", "dls"),
 	("dls_tensor_refs", "bn"), ("predict_args", "bn"), ("ism", "dls"),
+	("dls", "alias"),
 	("marginalize_dls", "dls"), ("ablate_dls", "dls"), ("space_dls", "dls"),
 	("substitution_dls", "dls"), ("deletion_dls", "dls"),
 	("product_dls", "dls"), ("pairwise", "dls"), ("greedy", "dls")]
@@ -475,7 +493,10 @@ def plan(tier, seed):
 	units = []
 	quick = tier == "quick"
 	for op in EVENT_OPS:
-		for kind in (("dls",) if quick else ("dls", "bn")):
+		kinds = ("dls",) if quick else ("dls", "bn", "alias")
+		if quick and op in ("dls", "marginalize_dls", "predict_args"):
+			kinds = ("dls", "alias", "bn")
+		for kind in kinds:
 			units.append({"cls": "events", "op": op, "model": kind,
 				"tier": tier, "weight": 6})
 	units.append({"cls": "invalid", "tier": tier, "weight": 2})
@@ -498,7 +519,8 @@ def plan(tier, seed):
 	per = 12 if quick else 40
 	for i in range(0, len(hs), per):
 		units.append({"cls": "histories", "hs": hs[i:i + per],
-			"model": "dls" if (i // per) % 3 else "bn", "weight": per / 3})
+			"model": ("bn", "dls", "alias")[(i // per) % 3],
+			"weight": per / 3})
 	return units
 
 
@@ -526,7 +548,7 @@ def run_unit(unit, rec):
 		rec.mark_exhaustive("event-bhook")
 	elif cls == "invalid":
 		for name in build_invalid():
-			for kind in ("dls", "bn"):
+			for kind in ("dls", "bn", "alias"):
 				run_case("invalid-input", {"type": "invalid", "name": name,
 					"model": kind}, rec)
 	elif cls == "lines":
